@@ -46,6 +46,9 @@ def compare(mod, r):
     a, m = canon(case, fps_canon(case, r["dev"])), canon(case, fps_canon(case, r["model"]))
     if a == m:
         return None
+    # a property-level notion of agreement, where the raw answers carry detail the property does not speak about
+    if hasattr(mod, "agree") and mod.agree(case, a, m):
+        return None
     from check import leaves
     if leaves(a) == leaves(m):
         return ("format", "answers differ only in formatting")
@@ -54,6 +57,9 @@ def compare(mod, r):
     if getattr(mod, "ERROR_IDENTITY_IRRELEVANT", False) and a.startswith("E:") and m.startswith("E:") \
             and not (r.get("dev_panic") or r.get("rel_panic")):
         return ("errdiff", "implementation and model both reject this input, with different errors (no property-violating input)")
+    if getattr(mod, "VALUE_DIFF_NO_INPUT", False):
+        return ("modeldiff", "implementation and model answer differently; this property (no abort / bounded resources) is not about the value, "
+                             "the owning property's check judges it")
     return ("value", "implementation and model disagree on the observable")
 
 
@@ -168,7 +174,7 @@ def run_property(ck, pid, tier, seed, replay):
                        "impl_release": r.get("rel", "")[:4000], "model": (r["model"] or "(implementation only)")[:4000], "origin": o,
                        "failing_cases_of_this_kind": len(lst),
                        "broken": "correspondence implementation vs Coq model (%s)" % getattr(mod, "CORRESPONDENCE", pid)}
-            v.violation(ck, h8(kind + r["case"]), payload, no_input=(kind in ("format", "errdiff")))
+            v.violation(ck, h8(kind + r["case"]), payload, no_input=(kind in ("format", "errdiff", "modeldiff")))
             print("DISAGREEMENT[%s] %s\n  case : %s\n  impl : %s\n  model: %s" % (kind, detail, r["case"][:600], r["dev"][:600], (r["model"] or "")[:600]))
         # ---------------- extraction cross-check: vm_compute inside Coq vs the extracted binary ----------------
         from vlib import coqeval
